@@ -419,6 +419,66 @@ func C19(c *fw.Ctx) {
 			}
 		}
 	}
+	// ---- (3f) how the text begins, and tiny texts: every text of one or two printable ASCII characters,
+	// and every triple over 21 token-boundary characters, as a whole script (with and without a final line
+	// end) and as the first line before a clean program: the run is classified (0 / 65 / 70), never
+	// anything else, and 65 comes with a diagnostic and no output of the program
+	{
+		var all []string
+		for r := rune(0x20); r <= 0x7e; r++ {
+			all = append(all, string(r))
+		}
+		special := []string{"\"", "\\", "/", "*", "1", ".", "a", " ", "\t", "\r", "#", "!", "(", "{", ";", "=", "&", "-", "\u09e7", "\u0995", "\ufeff"}
+		var texts []string
+		for _, a := range all {
+			texts = append(texts, a)
+			for _, b := range all {
+				texts = append(texts, a+b)
+			}
+		}
+		for _, a := range special {
+			for _, b := range special {
+				for _, d := range special {
+					texts = append(texts, a+b+d)
+				}
+			}
+		}
+		clean := model.KwPrint + " \"ok\";\n"
+		for _, t := range texts {
+			if !c.Mine() {
+				continue
+			}
+			for variant, src := range []string{t, t + "\n", t + "\n" + clean} {
+				o := h.RunFile(src, h.Opts{Fuel: 400000})
+				c.Eval(src, true)
+				c.R.States++
+				base := fw.Replay{Mode: "file", Program: src, CLI: true, InStdout: o.Stdout, InStderr: o.Stderr, InStatus: o.Status}
+				if abnormal(c, o, "file", src, base) {
+					continue
+				}
+				c.Outcome(fmt.Sprint(o.Status))
+				bad := ""
+				switch {
+				case o.Status != 0 && o.Status != 65 && o.Status != 70:
+					bad = "status is none of 0 / 65 / 70"
+				case o.Status == 65 && (o.Stdout != "" || o.Stderr == ""):
+					bad = "status 65 with output of the program or without a diagnostic"
+				case o.Status == 0 && o.Stderr != "":
+					bad = "status 0 with a diagnostic"
+				case o.Status == 70 && o.Stderr == "":
+					bad = "status 70 without a diagnostic"
+				}
+				if bad != "" {
+					r := base
+					r.Sig = fmt.Sprintf("C19|classification|tiny-text|variant%d", variant)
+					r.What = "a tiny text (or a tiny first line before a clean program) is not classified: " + bad
+					r.Expected = "0 with empty stderr, 65 with a diagnostic and no output, or 70 with a diagnostic"
+					r.Observed = fmt.Sprintf("stdout %q status %d stderr %q", trunc(o.Stdout, 100), o.Status, trunc(o.Stderr, 200))
+					c.Violate(r)
+				}
+			}
+		}
+	}
 	// ---- (3c) calls with n arguments (n across every power of two up to 2^11, and 250..260): a program
 	// that is derivable and valid runs, prints and exits 0; the same call in a function that is never called
 	{
